@@ -25,9 +25,10 @@ def concrete(mod, fn_name, sel, args):
     h.SEL.update(sel or {})
     h.TWIN = False
     h.set_blocks([])
+    h.HARNESS[0] = mod
     if hasattr(mod, "setup_query"):
         mod.setup_query(h.SEL)
-    fn = getattr(mod, fn_name)
+    fn = mod.make_fn(fn_name, h.SEL, "replay") if hasattr(mod, "make_fn") else getattr(mod, fn_name)
     try:
         ok = fn(**args)
     except BaseException as e:  # concrete run: nothing to steer
